@@ -99,8 +99,8 @@ def step_and_check(net, model, U, op, st, problems):
     return exc
 
 
-def run_history(ops, st, universe=STD_UNIVERSE):
-    U = Universe(universe)
+def run_history(ops, st, universe=STD_UNIVERSE, namer=None):
+    U = Universe(universe, namer)
     net = M.Network(name="net")
     model = Model()
     problems = []
@@ -122,6 +122,15 @@ def worker_hist(item):
                 st.sample({"part": "i", "history": ops, "graph": snapshot(net, U).to_json()})
             for sig, msg in problems:
                 st.violation(sig, msg, {"part": "i", "history": ops})
+            if depth <= 2:
+                # the same history with every object (nodes, links, origins, destinations) called "x": the graph
+                # is made of objects, not of names
+                from ..graphmodel import SAME_NAME
+                st.inc("states")
+                st.inc("executions")
+                problems, net, U = run_history(ops, st, namer=SAME_NAME)
+                for sig, msg in problems:
+                    st.violation(sig + "/equal-names", msg, {"part": "i", "history": ops, "equal_names": True})
     return st
 
 
@@ -195,7 +204,8 @@ def replay(case):
     st = Stats()
     ops = [_detuple(op) for op in case["history"]]
     uni = PATH_UNIVERSE if case.get("part") == "ii" else STD_UNIVERSE
-    problems, net, U = run_history(ops, st, uni)
+    from ..graphmodel import SAME_NAME
+    problems, net, U = run_history(ops, st, uni, SAME_NAME if case.get("equal_names") else None)
     lines = ["history:"] + [f"   {op}" for op in ops] + [f"graph now: {snapshot(net, U).to_json()}"]
     for sig, msg in problems:
         lines.append(f"  {sig}: {msg}")
